@@ -6,7 +6,7 @@ ISIMIP bound defaults) + translated ISIMIP has_* (Gen/GenIsimip.v) + hand model 
 Correspondence K10: real from_variable for all 8 x 14 names x case variants and Variable objects;
 real constructors on a grid of valid / invalid values per field.
 Search: kwargs override, attribute-vs-constructor equivalence on data, ISIMIP without bounds."""
-import warnings, logging
+import os, warnings, logging
 import numpy as np
 from . import common as C
 
@@ -210,21 +210,31 @@ def search(res, tier, seed, deep=False):
                 if diff:
                     report("case-insensitive-settings:" + dn, dn + ".from_variable", dict(kind="case-kwargs", debiaser=dn, variable=var, kwarg=k, value=repr(v)), dict(differing_fields=diff),
                            "upper-case variable name with a keyword argument configures the debiaser differently from the lower-case name")
-    # 1bb. the 'experimental' warning is given on every initialisation, not only the first one in a process
-    exp_pairs = [(dn, v) for dn, cls in cl.items() for v in ("hurs", "tasmin", "psl", "rsds")]
-    for dn, v in exp_pairs:
-        kinds = []
-        for rep in range(2):
-            with warnings.catch_warnings(record=True) as w:
-                warnings.simplefilter("always")
-                try:
-                    cl[dn].from_variable(v); kinds.append("warn" if any("experimental" in str(x.message).lower() for x in w) else "silent")
-                except Exception:
-                    kinds.append("raise")
-        res.case(("from_variable-twice", dn, v))
-        if kinds[0] != kinds[1]:
-            report("from_variable-not-repeatable:" + dn, dn + ".from_variable", dict(kind="from-variable-twice", debiaser=dn, variable=v), kinds,
-                   "initialising the same (debiaser, variable) pair twice in one process behaves differently the second time")
+    # 1bb. the published table holds for EVERY initialisation, not only the first one in a process (no once-only
+    #      warnings, no caches): each (debiaser, variable) pair is initialised twice more and compared with the table
+    import ast as _ast, sys as _sys
+    _sys.path.insert(0, os.path.join(C.VERIF, "translator"))
+    import gen_config as _gc
+    _cols, _rows = _gc.parse_table(_ast.get_docstring(_ast.parse(open(os.path.join(C.REPO, "ibicus/debias/__init__.py")).read()), clean=False))
+    want = {"Default": "silent", "Experimental": "warn", "Blank": "raise"}
+    for label, cells in _rows.items():
+        v = label
+        for dn, cell in zip(_cols, cells):
+            if dn not in cl: continue
+            kinds = []
+            for rep in range(2):
+                with warnings.catch_warnings(record=True) as w:
+                    warnings.simplefilter("always")
+                    try:
+                        cl[dn].from_variable(v); kinds.append("warn" if any("experimental" in str(x.message).lower() for x in w) else "silent")
+                    except ValueError:
+                        kinds.append("raise")
+                    except Exception as e:
+                        kinds.append("other:" + type(e).__name__)
+            res.case(("from_variable-repeated", dn, cell))
+            if any(k != want[cell] for k in kinds):
+                report("support-table-repeated-call:" + dn, dn + ".from_variable", dict(kind="from-variable-twice", debiaser=dn, variable=v, table=cell), kinds,
+                       "initialising a (debiaser, variable) pair again in the same process does not behave as the support table says")
     # 1c. two keyword arguments together: both override, whichever route from_variable takes
     PAIRS = {"running_window_length": 45, "running_window_step_length": 3, "censoring_threshold": 1e-4, "cdf_threshold": 1e-3, "delta_type": "additive",
              "pr_lower_threshold": 1e-5, "SSR": False, "running_window_mode": False, "ecdf_method": "step_function", "iecdf_method": "linear",
@@ -381,6 +391,17 @@ def replay(w):
         except Exception as e:
             return False, repr(e)[:200]
     cls = cl[inp["debiaser"]]
+    if inp["kind"] == "from-variable-twice":
+        kinds = []
+        for rep in range(2):
+            with warnings.catch_warnings(record=True) as w_:
+                warnings.simplefilter("always")
+                try:
+                    cls.from_variable(inp["variable"]); kinds.append("warn" if any("experimental" in str(x.message).lower() for x in w_) else "silent")
+                except ValueError:
+                    kinds.append("raise")
+        want = {"Default": "silent", "Experimental": "warn", "Blank": "raise"}[inp["table"]]
+        return any(k != want for k in kinds), kinds
     if inp["kind"] == "kwargs-pair":
         kw = {k: eval(v) for k, v in inp["kwargs"].items()}
         with warnings.catch_warnings():
